@@ -32,7 +32,7 @@ Scope == [x \in ScopeNames |->
       [] x = "ns"  -> Null(TStr)
       [] x = "l"   -> List(TNum, <<Num(2), Num(4)>>)
       [] x = "ls"  -> List(TStr, <<Str("a"), Str("b")>>)
-      [] x = "le"  -> List(TStr, <<>>)
+      [] x = "le"  -> List(TObj(<<"a">>, <<TNum>>), <<>>)      \* an EMPTY list whose element type has attributes
       [] x = "t"   -> Tup(<<Num(2), Str("a")>>)
       [] x = "o"   -> Obj(<<"a", "b">>, <<Num(2), Str("x")>>)
       [] x = "m"   -> Map(TStr, <<"a", "b">>, <<Str("x"), Str("y")>>)
